@@ -49,6 +49,15 @@ def rule_models(tier):
            [dict(type='assignment', target='p', rhs=('+', NUM(0.5), ('*', NUM(0.5), ID(B))), freq='repeated'),
             dict(type='ode', target=C, rhs=ID('q'))],
            {'p': 1.0, 'q': 2.0}, ['ode'], x0=dict(base_x0, X=1))
+        # a repeated rule (default frequency, spelled by omission) listed AFTER a dt rule / a scheduled rule keeps its own frequency
+        mk('repeated_after_dt_%s' % rx, rx,
+           [dict(type='assignment', target=X, rhs=('+', ID(X), NUM(1)), freq='dt'),
+            dict(type='assignment', target=Y, rhs=('+', ID(A), ('*', NUM(2), ID(B))), freq='repeated')],
+           {'p': 1.0}, ['fixed_point'], x0=dict(base_x0, X=1))
+        mk('repeated_after_sched_%s' % rx, rx,
+           [dict(type='assignment', target=X, rhs=('+', ('*', NUM(2), ID(A)), NUM(3)), freq=0.5),
+            dict(type='assignment', target=Y, rhs=('+', ID(A), ('*', NUM(2), ID(B))), freq='repeated')],
+           {'p': 1.0}, ['fixed_point'], x0=dict(base_x0, X=1))
         # (c): scheduled rules at every interior grid time and at the start
         for tau in (['start', 0.25, 0.5, 0.75] if tier == 'thorough' or rx in ('rx1', 'rx_rule_species') else ['start', 0.5]):
             mk('sched_%s_%s' % (tau, rx), rx,
